@@ -27,15 +27,18 @@ Theorem chan_fifo_per_sender :
 Proof. exact chan_fifo_lemma. Qed.
 Print Assumptions chan_fifo_per_sender.
 
-(* receive on a closed drained channel does not block, reports closure, and keeps doing so *)
+(* receive on a closed drained channel does not block, reports closure, and keeps doing so (the only
+   other way such a receive can end is the calling state's own "registry overflow" / "stack
+   overflow", ALimit: see limit_failure_consumes_nothing) *)
 Theorem closed_drained_reports :
   forall s c, closed_drained (chs s) c ->
     (forall t, find_t t (pend s) = Some (ORecv c) -> find_t t (fin s) = None ->
        exists s', exec s (LLin (ARecvClosed t c) 0 0) = Some s' /\
                   find_t t (fin s') = Some (ORecv c, RRecv false VNil)) /\
-    (forall t a i r chs', apply_act (chs s) a = Some chs' -> completes t (ORecv c) a i = Some r -> r = RRecv false VNil) /\
+    (forall t a i r chs', apply_act (chs s) a = Some chs' -> completes t (ORecv c) a i = Some r ->
+       r = RRecv false VNil \/ (r = RErrLimit /\ a = ALimit t)) /\
     (forall t cs a i r chs', apply_act (chs s) a = Some chs' -> nth_error cs i = Some (SRecv c) ->
-       completes t (OSelect cs) a i = Some r -> r = RSel i VNil false \/ r = RErrRefused) /\
+       completes t (OSelect cs) a i = Some r -> r = RSel i VNil false \/ r = RErrRefused \/ (r = RErrLimit /\ a = ALimit t)) /\
     (forall ls s', run s ls = Some s' -> closed_drained (chs s') c).
 Proof. exact closed_drained_lemma. Qed.
 Print Assumptions closed_drained_reports.
@@ -76,6 +79,28 @@ Theorem payload_filter :
   (forall t o a i, op_unsafe o = false -> completes t o a i <> Some RErrRefused).
 Proof. exact payload_filter_lemma. Qed.
 Print Assumptions payload_filter.
+
+(* a receive or select that ends in the calling state's resource error ("registry overflow" /
+   "stack overflow": no room for the results or for the handler call) has not touched any channel:
+   nothing was taken out, nothing was sent, no other thread's operation is affected; it is the only
+   way an operation ends so (send and close never do); it never blocks; and the value it could have
+   taken is still the head of the buffer for any pending receive, the retry included.  All run-level
+   theorems above quantify over runs that contain such failures. *)
+Theorem limit_failure_consumes_nothing :
+  (forall s t i j s', exec s (LLin (ALimit t) i j) = Some s' ->
+     chs s' = chs s /\
+     exists o, find_t t (pend s) = Some o /\ op_reserves o = true /\ op_unsafe o = false /\
+               fin s' = (t, (o, RErrLimit)) :: fin s /\ pend s' = remove_t t (pend s)) /\
+  (forall t o a i, completes t o a i = Some RErrLimit -> a = ALimit t /\ op_reserves o = true /\ op_unsafe o = false) /\
+  (forall s t o, find_t t (pend s) = Some o -> find_t t (fin s) = None -> op_reserves o = true -> op_unsafe o = false ->
+     exists s', exec s (LLin (ALimit t) 0 0) = Some s' /\ find_t t (fin s') = Some (o, RErrLimit)) /\
+  (forall s t i j s' c ch x b u, exec s (LLin (ALimit t) i j) = Some s' ->
+     nth_error (chs s) c = Some ch -> buf ch = x :: b ->
+     find_t u (pend s') = Some (ORecv c) -> find_t u (fin s') = None ->
+     exists s'', exec s' (LLin (ARecv u c x) 0 0) = Some s'' /\
+                 find_t u (fin s'') = Some (ORecv c, RRecv true x)).
+Proof. exact limit_failure_lemma. Qed.
+Print Assumptions limit_failure_consumes_nothing.
 
 (* the filter looks at the value itself only: a plain table is accepted whatever it contains
    (a function nested in a table crosses states).  Recorded, see notes/C13.md. *)
